@@ -401,9 +401,10 @@ def run(res, ctx):
                 st["residue-single-affiliate"] += 1
                 for s_, so_ in i["secs"].items():
                     badrow = [d for d in so_["deltas"] if d["post"][0] != d["post"][1]]
-                    if badrow or so_["stop"][0] == 1:
+                    sanity = so_["stop"][0] == 1 and so_["stop"][1] == 1     # other rejections: the regular passes judge them
+                    if badrow or sanity:
                         res.violation("failing-input", "single affiliate, non-terminating split factor: %s" % (
-                            "rejected: %s" % so_.get("msg") if so_["stop"][0] == 1 else
+                            "rejected by the sanity check: %s" % so_.get("msg") if sanity else
                             "all-affiliate balance %s differs from the affiliate's balance %s" % (badrow[0]["post"][1], badrow[0]["post"][0])),
                                       {"input": r["hc"], "actual_impl": so_.get("msg")})
             # ---- rejected iff impossible: implementation vs exact-arithmetic decisions
